@@ -206,6 +206,14 @@ class AGraph:
         self.name = name
         self.membership = {}
         self.ident = next(_ids)
+        self.fail_after_write = False  # networkx raises after it has already changed the graph (bad item in a batch, None node ...)
+
+    def _maybe_fail(self):
+        if self.fail_after_write:
+            from ..interp import PyRaise
+            from ..values import ExcValue
+
+            raise PyRaise(ExcValue("ValueError", ("networkx rejects an item after having added others",), ("Exception",)))
 
     def pyvc_getattr(self, interp, name):
         if name == "nodes":
@@ -216,23 +224,27 @@ class AGraph:
                 for key, v in k.items():
                     log_write(f"attr:{key}", ("add_node-attr", a[0], key, v))
                 cur().effects.append(("g-call", "add_node", tuple(a), dict(k)))
+                self._maybe_fail()
             return Builtin("DiGraph.add_node", add_node)
         if name == "add_nodes_from":
             def add_nodes_from(it, a, k):
                 log_write("nodes", ("add_nodes_from", a[0]))
                 cur().effects.append(("g-call", "add_nodes_from", tuple(a), dict(k)))
+                self._maybe_fail()
             return Builtin("DiGraph.add_nodes_from", add_nodes_from)
         if name == "add_edge":
             def add_edge(it, a, k):
                 log_write("edges", ("add_edge", tuple(a), dict(k)))
                 log_write("nodes", ("add_edge-implicit-nodes", tuple(a)))
                 cur().effects.append(("g-call", "add_edge", tuple(a), dict(k)))
+                self._maybe_fail()
             return Builtin("DiGraph.add_edge", add_edge)
         if name == "add_edges_from":
             def add_edges_from(it, a, k):
                 log_write("edges", ("add_edges_from",))
                 log_write("nodes", ("add_edges_from-implicit-nodes",))
                 cur().effects.append(("g-call", "add_edges_from", tuple(a), dict(k)))
+                self._maybe_fail()
             return Builtin("DiGraph.add_edges_from", add_edges_from)
         if name == "name":
             return self.name
